@@ -174,6 +174,16 @@ CANON = ("FLAG", "HAS", "INT[", "EXCL[", "∃EXCL[", "INSCAN[")
 NAME_RELATIONAL = ("STR[", "EQ[", "P<", "CMP[")
 
 
+def shape_only(a: str, sym: str) -> bool:
+    """The atom looks at the name of `sym` only through the number of its components / characters (`e.count('.')`,
+    `len(e.split('.'))`, `len(e)`): such a test cannot be the internal test written out a second time - that one compares text."""
+    import re
+
+    s_ = re.escape(sym)
+    rest = re.sub(rf"len\({s_}\.r?split\([^()]*\)\)|{s_}\.count\([^()]*\)|len\({s_}\)", "#", a)
+    return rest != a and not M.mentions(rest, sym)
+
+
 def is_canonical(a: str) -> bool:
     return a in ("FLAG", "HAS") or a.startswith(CANON[2:])
 
@@ -246,7 +256,7 @@ def tri(it: M.Interp, premise: Formula, conclusion: Formula) -> tuple[str, "dict
     # a test on the element's name in a spelling the model does not know may be the internal test written out a second time
     int_atom = atom(f"INT[{E}]")
     for a in sorted(names_):
-        if a.startswith(NAME_RELATIONAL) and M.mentions(a, E) and M.valid(M.subst_atom(premise, a, int_atom), M.subst_atom(conclusion, a, int_atom), cons):
+        if a.startswith(NAME_RELATIONAL) and M.mentions(a, E) and not shape_only(a, E) and M.valid(M.subst_atom(premise, a, int_atom), M.subst_atom(conclusion, a, int_atom), cons):
             return "undecided", {a: True}
     # (facts about a whole collection - `∃EXCL[•1]`: some name of it matches - are related to the facts about one element in
     # ways the model does not know: soft)
@@ -276,6 +286,43 @@ def tri(it: M.Interp, premise: Formula, conclusion: Formula) -> tuple[str, "dict
                 return "undecided", {a: True for a in opaque}
             return "violated", witness
     return "undecided", None
+
+
+def unrelated_atoms(it: M.Interp, names_: set[str]) -> list[str]:
+    """Facts that have nothing to do with the external options: not canonical, not computed from FLAG / the patterns, understood
+    by the model (a level limit, a test on the number of components of a name ...).  They have the same value in every
+    configuration of the external options."""
+    return sorted(a for a in names_ if not is_canonical(a) and not (it.taint_of_atom(a) & {"FLAG", "EXT"}) and understood(it, a) and not any(a == f"ISNONE[{p}]" for p in it.ext_params))
+
+
+def kept_whenever_kept_elsewhere(it: M.Interp, k: Formula, premise: Formula) -> "list[str] | None":
+    """`premise -> k` up to filters that do not depend on the external options: for every value of the unrelated facts, an
+    element that satisfies `k` in SOME configuration satisfies it in EVERY configuration in which the premise holds.  Returns the
+    unrelated facts used (the obligation holds) or None (it does not hold / nothing unrelated is involved)."""
+    names_ = atoms_of(k) | atoms_of(premise)
+    cons = constraints(it, names_ | {"FLAG", "HAS"})
+    names_ |= atoms_of(cons)
+    free_ = unrelated_atoms(it, names_)
+    if not free_:
+        return None
+    hard = sorted(names_ - set(free_))
+    if len(hard) + len(free_) > 16:
+        return None
+    for env_u in M.assignments(free_):
+        somewhere = False
+        everywhere = True
+        for env_h in M.assignments(hard):
+            env = {**env_u, **env_h}
+            if not evaluate(cons, env):
+                continue
+            v = evaluate(k, env)
+            if v and env.get(f"INSCAN[{E}]", True):
+                somewhere = True
+            if not v and evaluate(premise, env):
+                everywhere = False
+        if somewhere and not everywhere:
+            return None
+    return free_
 
 
 _OPS = {"Eq", "NotEq", "Gt", "GtE", "Lt", "LtE", "Is", "IsNot", "In", "NotIn", "None", "True", "False", "Add", "Sub"}
@@ -446,6 +493,201 @@ def check_walk(repo: Repo, res: Result, it: M.Interp, internal: set[str]) -> "bo
     return True
 
 
+# --------------------------------------------------------------------------- R5: the verdict on one import is a function of that import
+
+
+ORDER_NAMES = ("aa", "aa.bb", "aa.bb.cx", "aa.bb.cc", "aa.bb.cc.dd")
+
+
+def var_masks(names: list[str]) -> dict[str, int]:
+    """Bit masks of the assignments (numbered 0 .. 2^n - 1, names[j] = bit j of the number) in which a name is true."""
+    size = 1 << len(names)
+    var: dict[str, int] = {}
+    for j, a in enumerate(names):
+        half = 1 << j
+        block = ((1 << half) - 1) << half
+        m = 0
+        for s in range(0, size, half << 1):
+            m |= block << s
+        var[a] = m
+    return var
+
+
+def truth_table(f: Formula, names: list[str], var: "dict[str, int] | None" = None) -> int:
+    """The truth table of `f` over `names` as one integer (bit i = value under assignment number i).  Shared sub-formulas are
+    evaluated once: the descriptions of the concrete runs are small graphs that print as huge trees."""
+    full = (1 << (1 << len(names))) - 1
+    var = var if var is not None else var_masks(names)
+    memo: dict[int, int] = {}
+
+    def go(g: Formula) -> int:
+        r = memo.get(id(g))
+        if r is not None:
+            return r
+        tag = g[0]
+        if tag == "const":
+            r = full if g[1] else 0
+        elif tag == "atom":
+            r = var[g[1]]
+        elif tag == "not":
+            r = full & ~go(g[1])
+        elif tag == "and":
+            r = full
+            for h in g[1]:
+                r &= go(h)
+        else:
+            r = 0
+            for h in g[1]:
+                r |= go(h)
+        memo[id(g)] = r
+        return r
+
+    return go(f)
+
+
+def state_carriers(repo: Repo, visited: set[str]) -> list:
+    """Writes to objects that outlive the treatment of one import in the functions the interpretation went through: fields of
+    `self` outside the constructor, parameters, locals that may hold an object created elsewhere."""
+    from core.effects import Effects
+
+    eff = Effects(repo, types_of(repo))
+    out = []
+    for f in repo.all_functions():
+        if f.fq not in visited or isinstance(f.node, ast.Lambda) or f.name in ("__init__", "__post_init__", "__new__"):
+            continue
+        loops = [n for n in own_nodes(f.node) if isinstance(n, (ast.For, ast.AsyncFor, ast.While))]
+        for w in eff.writes(f):
+            if w.root_kind == "self" or w.root_kind in ("classvar", "global"):
+                out.append(w)
+            elif w.root_kind == "local" and f.name not in ("__init__", "__post_init__"):
+                # a local container that lives across the iterations of a loop and is changed inside it
+                for lp in loops:
+                    inside = {id(n) for st in lp.body for n in ast.walk(st)}
+                    if id(w.node) in inside and not any(isinstance(n, ast.Name) and n.id == w.root and isinstance(n.ctx, ast.Store) for st in [lp.target] if isinstance(lp, (ast.For, ast.AsyncFor)) for n in ast.walk(st)) and not any(isinstance(n, ast.Name) and n.id == w.root and isinstance(n.ctx, ast.Store) for st in lp.body for n in ast.walk(st)):
+                        out.append(w)
+                        break
+    # fields of `self` first: they outlive the call
+    return sorted(out, key=lambda w: 0 if w.root_kind != "local" else 1)
+
+
+def check_order(repo: Repo, res: Result, it: M.Interp, internal: set[str]) -> None:
+    """R5, instance level: whether an import is dropped is decided by the import alone.
+
+    Property: an external disappears exactly when it, or one of its ancestors, matches a pattern.  Necessary: with externals
+    included the retention of the import of N is a function of the pattern facts about N and its ancestors - never of the facts
+    about a descendant, a sibling or any other name, whichever imports were filtered before.  A memo that is sound (it only ever
+    holds names for which "the name or an ancestor matches" is true: the matching name and what lies below it) leaves the
+    retention unchanged; one that also stores the ancestors above the match makes a later import of such an ancestor vanish.
+
+    Decided on the concrete imports of aa, aa.bb, aa.bb.cx, aa.bb.cc, aa.bb.cc.dd, filtered one after the other in both orders
+    (objects of the pipeline keep their fields between the imports): the truth table of every retention condition must not
+    change with EXCL('m') for a name m that is neither N nor an ancestor of N.
+    """
+    if len(it.sinks) != 1:
+        return
+    findings = []
+    inspected = 0
+    visited: set[str] = set()
+    sink = None
+    for order in (ORDER_NAMES, tuple(reversed(ORDER_NAMES))):
+        try:
+            itc = M.Interp(repo, it.entry, it.flag_params, it.ext_params, internal, concrete=True)
+            itc.conc_imports = [M.ConcImport(n) for n in order]
+            itc.run()
+        except Exception as e:  # noqa: BLE001 - the other obligations still speak
+            res.observe(f"C10.R5 order independence: the unrolling on concrete names failed ({type(e).__name__}: {e})")
+            return
+        if len(itc.sinks) != 1 or not isinstance(itc.sinks[0].imports, M.Coll) or any(p.kind != "lit" for p in itc.sinks[0].imports.parts):
+            res.observe("C10.R5 order independence: the import list of the concrete run is not made of the concrete imports only - no verdict")
+            return
+        sink = itc.sinks[0]
+        visited |= itc.visited
+        for ci in itc.conc_imports:
+            k = disj(p.guard for p in sink.imports.parts if p.kind == "lit" and any(i is ci for i in p.items))
+            names_ = sorted(atoms_of(k))
+            lineage = {ci.name, *M.dotted_ancestors(ci.name)}
+            outside = [a for a in names_ if a.startswith("EXCL(") and not any(a == f"EXCL({n!r})" for n in lineage)]
+            if not outside:
+                inspected += 1
+                continue
+            if len(names_) > 16:
+                res.observe(f"C10.R5 order independence: retention of the import of `{ci.name}` mentions {len(names_)} facts - not enumerated")
+                return
+            hard = [a for a in names_ if a in ("FLAG", "HAS") or a.startswith(("EXCL(", "INT("))]
+            soft = [a for a in names_ if a not in hard]
+            if any(not understood(itc, a) for a in names_):
+                res.observe(f"C10.R5 order independence: retention of the import of `{ci.name}` contains tests the model does not know ({', '.join(a for a in names_ if not understood(itc, a))}) - no verdict")
+                return
+            var = var_masks(names_)
+            table = truth_table(k, names_, var)
+            full = (1 << (1 << len(names_))) - 1
+            idx = {a: j for j, a in enumerate(names_)}
+            mask_of = var.__getitem__
+
+            # situations that exist: externals included, patterns present; an internal name has internal descendants
+            ok = full
+            if "FLAG" in idx:
+                ok &= full & ~mask_of("FLAG")
+            if "HAS" in idx:
+                ok &= mask_of("HAS")
+            ints = {a[len("INT("):-1].strip("'\""): a for a in names_ if a.startswith("INT(")}
+            for n, a in ints.items():
+                for m_, b in ints.items():
+                    if m_.startswith(n + "."):
+                        ok &= (full & ~mask_of(a)) | mask_of(b)
+            inspected += 1
+            for o in outside:
+                j = idx[o]
+                low = full & ~mask_of(o)  # assignments with o false; the partner with o true is 2^j further
+                diff = (table ^ (table >> (1 << j))) & low & ok
+                if not diff:
+                    continue
+                # robust in the facts the model cannot judge: whatever their values, some situation shows the dependence
+                robust = True
+                for env_s in M.assignments(soft):
+                    sel = full
+                    for a, v in env_s.items():
+                        sel &= mask_of(a) if v else (full & ~mask_of(a))
+                    if not (diff & sel):
+                        robust = False
+                        break
+                if not robust:
+                    res.observe(f"C10.R5 order independence: retention of the import of `{ci.name}` changes with {o} only for some values of {', '.join(soft)} - no verdict")
+                    continue
+                i = (diff & -diff).bit_length() - 1
+                env = {a: bool((i >> idx[a]) & 1) for a in names_}
+                kept_when = bool((table >> i) & 1)
+                findings.append((ci.name, o[len("EXCL("):-1].strip("'\""), env, kept_when, [n for n in order], k))
+    if sink is None:
+        return
+    sink_key = repo.key(sink.fi, stmt_of(sink.node) or sink.node)
+    construct = sink_key + " [an import is judged on its own]"
+    if findings:
+        ws = state_carriers(repo, visited)
+        carriers = []
+        for w in ws:
+            t = f"`{header(stmt_of(w.node))}` in {w.fi.qualname}"
+            if t not in carriers:
+                carriers.append(t)
+        # the shortest name whose verdict is spoiled: the ancestor that vanishes
+        n, m_, env, kept_when, order, _k = min(findings, key=lambda f_: (len(f_[0]), f_[0], f_[1]))
+        rel = "descendant" if m_.startswith(n + ".") else ("sibling" if m_.rpartition(".")[0] == n.rpartition(".")[0] else "unrelated name")
+        others = sorted({f"`{a}` (by `{b}`)" for a, b, *_ in findings if (a, b) != (n, m_)})
+        detail = (
+            f"with externals included the import of the external `{n}` is {'kept' if kept_when else 'dropped'} when no pattern matches `{m_}` and {'dropped' if kept_when else 'kept'} when one does "
+            f"(all other facts equal: {fmt_env(env, {a for a in env if a != f'EXCL({m_!r})'})}; imports filtered in the order {', '.join(order)}), although `{m_}` is a {rel} of `{n}`, neither `{n}` nor one of its ancestors: "
+            f"the verdict on one import depends on which imports were filtered before it - "
+            + ("an external that matches a pattern (or has a matching ancestor) keeps its import. " if any(v for a, v in env.items() if a.startswith("EXCL(") and a != f"EXCL({m_!r})" and a[len("EXCL("):-1].strip("'\"") in {n, *M.dotted_ancestors(n)}) else "an external that matches no pattern and has no matching ancestor vanishes with its import. ")
+            + (f"State kept between imports: {'; '.join(carriers[:4])}. " if carriers else "")
+            + "A memo of excluded names may only hold names for which `the name or one of its ancestors matches` is true (the matching name and its descendants), never the ancestors above the match."
+            + (f" Also spoiled: {', '.join(others[:6])}." if others else "")
+        )
+        at = where(ws[0].fi, ws[0].node) if ws else where(sink.fi, sink.node)
+        res.add("C10.R5", construct, False, detail, at, kind="decision-table")
+        return
+    res.add("C10.R5", construct, True, f"unrolled on imports of {', '.join(ORDER_NAMES)} filtered in both orders with the objects of the pipeline keeping their fields: no retention condition depends on a pattern fact about a name outside the import's own lineage ({inspected} conditions inspected)", where(sink.fi, sink.node), kind="decision-table")
+
+
 # --------------------------------------------------------------------------- the rules on one sink
 
 
@@ -460,6 +702,20 @@ def check_sink(repo: Repo, res: Result, it: M.Interp, s: M.Sink, walk_ok: "bool 
     scanned = lambda b: b.startswith("scanned:")  # noqa: E731
     # ---- things the model cannot speak about: no verdict on a description that is incomplete
     n_und = len(res.undecided)
+    # ---- R1 at the source: the scan itself is configured with the external patterns
+    for fi_, call in it.ext_scans:
+        res.add(
+            "C10.R1",
+            repo.key(fi_, stmt_of(call) or call) + f" [{norm(call, 70)}: scan filter <- external patterns]",
+            False,
+            f"`{norm(call, 70)}` in {fi_.qualname} builds the scanner with a pattern filter whose tests (`is_excluded` / `has_filter`) read configuration attributes that carry the external exclusion patterns "
+            "(followed attribute by attribute through the configuration object and the fields of the filter): files and directories of the scanned tree whose path matches an external pattern are never scanned, "
+            "so internal modules and the imports from and to them disappear when an external exclusion pattern is given",
+            where(fi_, call),
+            kind="flow",
+        )
+    if it.ext_scans:
+        return
     for c, what in ((imps, "import list"), (mods, "module list")):
         seen_rem = set()
         for p, _down in M.walk_parts(c):
@@ -506,7 +762,7 @@ def check_sink(repo: Repo, res: Result, it: M.Interp, s: M.Sink, walk_ok: "bool 
         # a test on the name in a spelling the model does not know may be the internal test written out a second time: if the
         # dependence disappears once it is assumed to hold, the verdict hinges on what that test means (F-NAME, R2, judges it)
         for a in sorted(atoms_of(k)):
-            if a.startswith(NAME_RELATIONAL) and M.mentions(a, E) and depends_on_options(it, k, {**assume, a: True}) is None:
+            if a.startswith(NAME_RELATIONAL) and M.mentions(a, E) and not shape_only(a, E) and depends_on_options(it, k, {**assume, a: True}) is None:
                 res.undecide("C10.R1", sink_key + f" [{what}]", f"the retention of an internal element, `{show(k)}`, is independent of the external options only if `{a}` holds for internal elements: a test on the name that is not the recognised internal test decides here", sink_where)
                 return
         unknown = not_understood(it, k)
@@ -516,7 +772,11 @@ def check_sink(repo: Repo, res: Result, it: M.Interp, s: M.Sink, walk_ok: "bool 
         # name the filters without which the dependence disappears
         named = False
         base_ok = scanned if what == "modules" else any_base
+        seen_nodes: set[int] = set()
         for p in fparts:
+            if id(p.node) in seen_nodes:
+                continue  # a copy of a filter already judged (the same statement reached on another path)
+            seen_nodes.add(id(p.node))
             k_wo = M.retention(transparent(c, p), E, base_ok)
             if depends_on_options(it, k_wo, assume) is None:
                 named = True
@@ -552,7 +812,15 @@ def check_sink(repo: Repo, res: Result, it: M.Interp, s: M.Sink, walk_ok: "bool 
     verdict("C10.R4", sink_key + " [exclude mode: imports]", conj([k_imp_r, FLAG]), INT, "with externals excluded only imports accepted by the internal test remain", f"with externals excluded an import whose importee is not internal is retained: retention is `{show(k_imp_r)}`", sink_where)
     verdict("C10.R4", sink_key + " [include mode: matching externals dropped]", conj([k_imp_r, f_not(INT), f_not(FLAG)]), conj([f_not(EX), f_not(EXA)]), "an external import is dropped when its importee or one of its ancestors matches a pattern", f"an external import whose importee or one of whose ancestors matches an external exclusion pattern is retained (the patterns are not consulted for it): retention is `{show(k_imp_r)}`", sink_where, by_unrolling=True)
     verdict("C10.R4", sink_key + " [include mode: other externals kept]", conj([f_not(FLAG), f_not(EX), f_not(EXA)]), k_imp_r, "with externals included every import that matches no pattern (itself and its ancestors) is retained", f"with externals included an import that matches no external pattern is dropped: retention is `{show(k_imp_r)}`", sink_where, by_unrolling=True)
-    verdict("C10.R4", sink_key + " [exclude mode: modules]", conj([FLAG, INSCAN]), k_scan_r, "with externals excluded every scanned module is handed to the graph", f"with externals excluded a scanned module is not handed on: retention is `{show(k_scan_r)}`", sink_where)
+    # (a filter of the scanned modules that does not depend on the external options - a level limit - is not the business of
+    # C10: the internal modules must be the same in every configuration, so a scanned module that any configuration hands on
+    # must be handed on with externals excluded)
+    st_mod, _w = tri(it, conj([FLAG, INSCAN]), k_scan_r)
+    unrel = kept_whenever_kept_elsewhere(it, k_scan, conj([FLAG, INSCAN])) if st_mod != "ok" else None
+    if unrel:
+        res.add("C10.R4", sink_key + " [exclude mode: modules]", True, f"with externals excluded every scanned module that any configuration hands to the graph is handed on (the other conditions do not depend on the external options: {', '.join(unrel)})", sink_where, kind="decision-table")
+    else:
+        verdict("C10.R4", sink_key + " [exclude mode: modules]", conj([FLAG, INSCAN]), k_scan_r, "with externals excluded every scanned module is handed to the graph", f"with externals excluded a scanned module is not handed on: retention is `{show(k_scan_r)}`", sink_where)
 
     # ---- R3 / R4: what is appended to the module list
     adds = [(p, down) for p, down in M.walk_parts(mods_r) if p.kind == "adds"]
@@ -791,6 +1059,161 @@ def run_r2(repo: Repo, res: Result, it: M.Interp, internal: set[str], how: str) 
         res.add("C10.R2", f"{f.relpath}::{f.qualname}::complete prefixes", all(g for _f, _c, g, _t in zs), f"the internal test ({how}) contains no comparison of component lists truncated by zip ({len(zs)} zip comparison(s) of component lists inspected)", where(f, f.node), nontrivial=bool(zs), kind="structural")
 
 
+# --------------------------------------------------------------------------- R5: values shared through a memoised function
+
+
+MEMO_DECORATORS = {"lru_cache", "cache", "cached", "memoize", "memoized"}
+CONTAINER_MUTATORS = {
+    "append", "extend", "insert", "pop", "remove", "clear", "sort", "reverse", "add", "discard", "update", "setdefault", "popitem",
+    "difference_update", "intersection_update", "symmetric_difference_update", "appendleft", "extendleft", "popleft",
+    "__setitem__", "__delitem__", "__iadd__", "__ior__",
+}
+
+
+def memo_alias_mutations(repo: Repo, in_scope) -> tuple[list[FuncInfo], list[tuple[FuncInfo, FuncInfo, ast.AST]]]:
+    """(memoised functions, [(memoised function, mutating function, mutating node)]): in-place changes - in the functions selected
+    by `in_scope` - of a value that IS the result of a memoised function (an alias: through locals, fields, returns of repository
+    functions; copies and derived values are new objects).  The result of a memoised function is one object handed to every caller
+    of every scan: changing it changes what all later callers compute from it."""
+    from core.flow import Flow, Spec
+
+    memo = [f for f in repo.all_functions() if set(getattr(f, "decorators", ()) or ()) & MEMO_DECORATORS]
+    if not memo:
+        return [], []
+    T = types_of(repo)
+    by_fq = {f.fq: f for f in memo}
+
+    def sources(fi, e):
+        if isinstance(e, ast.Call):
+            try:
+                cs, _how = T.callees(fi, e, byname_fallback=False)
+            except Exception:  # noqa: BLE001
+                return None
+            tags = {"MEMO:" + c.fq for c in cs if c.fq in by_fq}
+            return tags or None
+        return None
+
+    def post(fi, e, tags):
+        mine = {t for t in tags if t.startswith("MEMO:")}
+        if not mine:
+            return tags
+        if isinstance(e, (ast.Name, ast.Attribute, ast.IfExp, ast.BoolOp, ast.NamedExpr, ast.Starred)):
+            return tags
+        if isinstance(e, ast.Call):
+            if sources(fi, e):
+                return tags
+            try:
+                cs, how = T.callees(fi, e, byname_fallback=False)
+            except Exception:  # noqa: BLE001
+                cs, how = [], ""
+            if cs and how == "repo":
+                return tags  # a repository function may return its argument / a field: the alias survives
+        return frozenset(tags) - mine
+
+    flow = Flow(repo, T, Spec(sources=sources, post=post, objects_carry=False, non_absorbed=frozenset("MEMO:" + fq for fq in by_fq)))
+    bad = []
+    for g in repo.all_functions():
+        if isinstance(g.node, ast.Lambda) or not in_scope(g):
+            continue
+        for n_ in own_nodes(g.node):
+            tgt = None
+            if isinstance(n_, ast.Call) and isinstance(n_.func, ast.Attribute) and n_.func.attr in CONTAINER_MUTATORS:
+                tgt = n_.func.value
+            elif isinstance(n_, ast.Subscript) and isinstance(n_.ctx, (ast.Store, ast.Del)):
+                tgt = n_.value
+            elif isinstance(n_, ast.AugAssign) and isinstance(n_.target, ast.Name):
+                tgt = ast.copy_location(ast.Name(id=n_.target.id, ctx=ast.Load()), n_.target)
+                # (`x += [..]` on a list is in place; on a str / int / tuple it rebinds: only containers can alias a memoised list)
+            if tgt is None:
+                continue
+            try:
+                tags = flow.tags(tgt) if not isinstance(n_, ast.AugAssign) else flow.tags(n_.target)
+            except Exception:  # noqa: BLE001
+                continue
+            for t in sorted(tags):
+                if t.startswith("MEMO:") and t[5:] in by_fq:
+                    bad.append((by_fq[t[5:]], g, n_))
+    return memo, bad
+
+
+MEMO_FIXTURE = {
+    "src/pytestarch/eval_structure/fx_types.py": '''
+from functools import lru_cache
+
+
+@lru_cache(maxsize=None)
+def parents(module: str) -> list[str]:
+    parts = module.split(".")
+    return [".".join(parts[:d]) for d in range(1, len(parts))]
+
+
+class Rec:
+    def __init__(self, name: str) -> None:
+        self._name = name
+        self._parents = parents(name)
+
+    def parent_modules(self) -> list[str]:
+        return self._parents
+''',
+    "src/pytestarch/eval_structure_generation/fx_calc.py": '''
+from pytestarch.eval_structure.fx_types import Rec
+
+
+def mutating(rec: Rec) -> list[str]:
+    names = rec.parent_modules()
+    names.append("x")
+    return names
+
+
+def copying(rec: Rec) -> list[str]:
+    names = list(rec.parent_modules())
+    names.append("x")
+    return names
+
+
+def fresh_set(rec: Rec) -> set[str]:
+    names = {"x"}
+    names.update(rec.parent_modules())
+    return names
+''',
+}
+
+
+def memo_fixture_selfcheck() -> str:
+    """The expected number of mutated memoised results on the real tree is zero: a positive fixture shows that the lint bites."""
+    import shutil
+    import tempfile
+    from pathlib import Path
+
+    tmp = Path(tempfile.mkdtemp(prefix="pta-c10-memo-fixture-"))
+    try:
+        for rel, text in MEMO_FIXTURE.items():
+            (tmp / rel).parent.mkdir(parents=True, exist_ok=True)
+            (tmp / rel).write_text(text)
+        for d in ("src/pytestarch", "src/pytestarch/eval_structure", "src/pytestarch/eval_structure_generation"):
+            (tmp / d / "__init__.py").write_text("")
+        fx = Repo(tmp)
+        memo, bad = memo_alias_mutations(fx, lambda f: f.module.name.startswith(SCAN_PKG))
+        got = sorted({g.name for _m, g, _n in bad})
+        if [m.name for m in memo] != ["parents"] or got != ["mutating"]:
+            raise AnalysisError(f"C10.R5 fixture: mutations of memoised results not classified as expected: memoised {[m.name for m in memo]}, mutated in {got}")
+        return "embedded fixture: the in-place change of an aliased memoised list is found, the change of a copy and of a fresh set filled from it are not"
+    finally:
+        shutil.rmtree(tmp, ignore_errors=True)
+
+
+def run_r5_memo(repo: Repo, res: Result) -> None:
+    memo, bad = memo_alias_mutations(repo, lambda f: f.module.name.startswith(SCAN_PKG))
+    seen = set()
+    for m, g, n_ in bad:
+        k_ = repo.key(g, stmt_of(n_) or n_)
+        if k_ in seen:
+            continue
+        seen.add(k_)
+        res.add("C10.R5", k_, False, f"`{header(stmt_of(n_) or n_)}` in {g.qualname} changes in place a value that is the result of the memoised {m.qualname} ({', '.join(sorted(set(m.decorators) & MEMO_DECORATORS))}): that object is shared by every caller and every later scan, so what a scan with externals included does to it (the calculator only runs then) changes what later scans - of any configuration - compute from it for internal modules", where(g, n_), kind="effect")
+    res.add("C10.R5", "src/pytestarch/eval_structure_generation::results of memoised functions are not changed in place", not bad, (f"{len(memo)} memoised function(s) ({', '.join(m.qualname for m in memo)}); {'a scan function mutates a value aliasing a result' if bad else 'no scan function mutates a value aliasing their results'}; " if memo else "no memoised function in the repository; ") + memo_fixture_selfcheck(), nontrivial=bool(memo), kind="effect")
+
+
 # --------------------------------------------------------------------------- run
 
 
@@ -826,6 +1249,7 @@ def run(repo: Repo) -> Result:
     if not it.sinks:
         res.undecide("C10.R1", f"{it.entry.relpath}::{it.entry.qualname}::graph construction", f"no construction of {M.SINK_CLASS}(modules, imports, ..) was met while interpreting the scan entry point", where(it.entry, it.entry.node))
     walk_ok = check_walk(repo, res, it, internal) if it.sinks else None
+    check_order(repo, res, it, internal)
     for s in it.sinks:
         check_sink(repo, res, it, s, walk_ok)
     run_r2(repo, res, it, internal, how)
@@ -837,4 +1261,5 @@ def run(repo: Repo) -> Result:
     for w in ws:
         res.add("C10.R5", repo.key(w.fi, stmt_of(w.node)), False, f"`{header(stmt_of(w.node))}` keeps {w.root_kind} state `{w.root}.{w.field}` in the scan pipeline: verdicts about externals computed for one option set are served to the next scan", where(w.fi, w.node), kind="effect")
     res.add("C10.R5", "src/pytestarch/eval_structure_generation::no shared state", not ws, "no function of the scan pipeline writes class-level or module-level state", kind="effect")
+    run_r5_memo(repo, res)
     return res
